@@ -43,6 +43,9 @@ def gen_case(rng: Rng, i: int, tier: str):
     entry = r.wpick([(6, "writeall"), (2, "pack")])
     pathform = r.pick(["rel", "abs", "dot"]) if entry == "writeall" else "rel"
     arcname = None if (entry == "pack" or r.chance(0.5)) else "arc/" + gen.gen_component(r, "ascii")
+    ra = rng.sub("arcroot")
+    if entry == "writeall" and ra.chance(0.15):
+        arcname = ra.pick(["", "", "."])  # the tree's content at the archive root
     if pathform == "dot":
         arcname = None if r.chance(0.7) else arcname
     return {"tree": t, "entry": entry, "pathform": pathform, "arcname": arcname, "deref": deref and entry == "writeall", "password": gen.gen_password(r) if r.chance(0.3) and entry == "writeall" else None,
